@@ -125,6 +125,30 @@ fn c02(ctx: &Ctx, r: &mut Report) {
             }
         });
     }
+    // --- inner attributes / inner doc comments at the top of the module body stay where they are
+    for prefix in ["#![allow(dead_code)]", "#![doc = \"inner\"] #![allow(unused)]"] {
+        for i in 0..alpha.len() {
+            let body = format!("{} {}", prefix, alpha[i].0);
+            let item = format!("pub mod m {{ {} }}", body);
+            let input = format!("#[entrait(Tr)] {}", item);
+            r.guarded(&input, |r| {
+                let out = expand(Variant::Entrait, "Tr", &item);
+                if let Some(e) = compile_error_of(&out) {
+                    r.fail("unexpected-error", &input, e);
+                    return;
+                }
+                let toks: Vec<TokenTree> = out.into_iter().collect();
+                match toks.get(3) {
+                    Some(TokenTree::Group(g)) if g.delimiter() == Delimiter::Brace => {
+                        if let Some(k) = ts_prefix(&ts(&body), &g.stream()) {
+                            r.fail("mod-items-changed", &input, format!("the module body does not start with its inner attributes and items, unchanged (first difference at token {})", k));
+                        }
+                    }
+                    _ => r.fail("mod-shape", &input, "no module body".into()),
+                }
+            });
+        }
+    }
     // --- invisible (None-delimited) groups, as produced by macro_rules fragments, survive in opaque regions
     {
         let none = |inner: &str| -> TokenStream { std::iter::once(TokenTree::Group(proc_macro2::Group::new(Delimiter::None, ts(inner)))).collect() };
